@@ -1673,6 +1673,7 @@ class DesignSpace:
         self._variables[name].lower_bound = lower_bound
         self._add_norm_policy(name)
         self.__norm_data_is_computed = False
+        self.__clear_dependent_data()
 
     def set_upper_bound(
         self,
@@ -1693,6 +1694,7 @@ class DesignSpace:
         self._variables[name].upper_bound = upper_bound
         self._add_norm_policy(name)
         self.__norm_data_is_computed = False
+        self.__clear_dependent_data()
 
     def convert_array_to_dict(
         self,
@@ -2371,3 +2373,4 @@ class DesignSpace:
                     self._add_norm_policy(name)
 
             self.__norm_data_is_computed = False
+            self.__clear_dependent_data()
